@@ -116,6 +116,8 @@ contains
 end module bmod
 """
 CLASH_SRC = {
+    # B's own type / procedure named like A's but written with capitals (another module name: only the entity names clash)
+    "caps": "module blocal\n!! B's own entities\ntype Shape_T\n!! B's own Shape_T\ninteger :: c\nend type Shape_T\ncontains\nsubroutine Asub(x)\n!! B's own Asub\ninteger :: x\nend subroutine Asub\nend module blocal\n",
     "module": "module alib\n!! B's own alib\ninteger :: mine\ntype shape_t\n!! B's own shape_t\ninteger :: c\nend type shape_t\ncontains\nsubroutine asub(x)\n!! B's own asub\ninteger :: x\nend subroutine asub\n"
               "integer function afun()\n!! own afun\nafun = 2\nend function afun\nsubroutine agen(i)\n!! own agen\ninteger :: i\nend subroutine agen\nend module alib\n",
 }
@@ -265,7 +267,7 @@ def run_history(st: Stats, case):
         else:
             ext = BASE_URL + "/"
         stub_urlopen(a_out)
-        reftext = {"none": "", "plain": "see [[alib]] and [[shape_t]] and [[asub]]", "ext": "see [[alib(extmodule)]] and [[shape_t(exttype)]] and [[asub(extproc)]]"}[refs]
+        reftext = {"none": "", "plain": "see [[alib]] and QR1 [[shape_t]] QE and QR2 [[asub]] QE", "ext": "see [[alib(extmodule)]] and [[shape_t(exttype)]] and [[asub(extproc)]]"}[refs]
         b_files = {"src/bmod.f90": B_SRC.format(usemod="alib", refs=reftext)}
         if clash:
             b_files["src/own.f90"] = CLASH_SRC[clash]
@@ -311,6 +313,8 @@ def run_history(st: Stats, case):
                 txt = Path(f).read_text(errors="replace")
                 if frag and f'id="{frag}"' not in txt and f"id='{frag}'" not in txt:
                     prob = f"anchor #{frag} missing in A's page"
+            if damage is not None:
+                prob = None  # what a damaged / foreign description points at is not FORD's responsibility
             if prob and (prob, name) not in seen_problem:
                 seen_problem.add((prob, name))
                 bad += 1
@@ -321,6 +325,21 @@ def run_history(st: Stats, case):
             if missing:
                 bad += 1
                 st.violation("external-entity-not-linked", stratum, dict(feats, entity=missing[0]), inp, sorted(linked_names), EXPECT_LINKED)
+        if clash == "caps" and refs == "plain":
+            # unqualified references resolved project-wide: B's own Shape_T / Asub come before anything external, however they are capitalised
+            for rel, pg in site.pages.items():
+                if rel.startswith("sourcefile/"):
+                    continue  # the verbatim source listing
+                for m in re.finditer(r"QR(\d)\s*(.*?)\s*QE", pg.raw, re.S):
+                    a = re.search(r"href=['\"]([^'\"]*)['\"]", m.group(2))
+                    href = a.group(1) if a else ""
+                    want_page = {"1": "type/shape_t.html", "2": "proc/asub.html"}[m.group(1)]
+                    target = posixpath.normpath(posixpath.join(posixpath.dirname(rel), href.split("#")[0])) if href and not href.startswith("http") else href
+                    if target != want_page:
+                        bad += 1
+                        st.violation("external-entity-wins-over-local", stratum, dict(feats, entity=want_page.split("/")[1][:-5]), inp,
+                                     dict(page=rel, href=href), f"B's own {want_page}")
+                        break
         if clash == "module":
             # B's own module alib must win: the Uses link and the type/procedure links stay inside B
             leaked = sorted(n for n in linked_names if n in ("alib", "shape_t", "asub", "afun", "agen"))
@@ -371,6 +390,7 @@ def gen_cases(tier):
     for form in forms:
         yield ("default", None, form, "module", None, "none")
         yield ("private", None, form, "module", None, "none")
+        yield ("default", None, form, "caps", None, "plain")
     # longer histories in one process, the same external under two names, FORD started from another directory
     for form in forms:
         for refs in ("none", "plain"):
@@ -381,7 +401,11 @@ def gen_cases(tier):
             for a1, a2 in (("default", "private"), ("private", "default"), ("nosrc", "alpha")):
                 yield (a1, a2, form, None, None, refs, "rebuild-between")
     damages = [("absent", None), ("empty", None), ("notjson", None), ("wrongshape", {}), ("wrongshape", []), ("wrongshape", {"modules": "x"}),
-               ("wrongshape", {"modules": [{"name": "alib"}]}), ("wrongshape", [1, 2, 3]), ("wrongshape", {"ford-metadata": {}, "modules": [None]})]
+               ("wrongshape", {"modules": [{"name": "alib"}]}), ("wrongshape", [1, 2, 3]), ("wrongshape", {"ford-metadata": {}, "modules": [None]}),
+               # a description written by hand / another tool: flat URLs without any "/", empty URLs, URLs with a query
+               ("wrongshape", {"ford-metadata": {"version": "7"}, "modules": [{"name": "alib", "external_url": "alib.html", "obj": "module", "pub_procs": {"asub": {"name": "asub", "external_url": "asub.html", "obj": "proc", "proctype": "Subroutine"}},
+                                            "pub_types": {}, "pub_vars": {}, "pub_absints": {}}]}),
+               ("wrongshape", {"ford-metadata": {"version": "7"}, "modules": [{"name": "alib", "external_url": "", "obj": "module", "pub_procs": {}, "pub_types": {}, "pub_vars": {}, "pub_absints": {}}]})]
     pts = truncation_points()
     step = 1 if tier == "thorough" else max(1, len(pts) // 60)
     damages += [("truncate", p) for p in pts[::step]]
